@@ -16,6 +16,9 @@ Four more clauses add two classes of abbreviations: attribute lists with *implie
 (written_attributes(): without a value they are no attribute of the element, so the attribute list skips them
 and vanishes when nothing is left) and *self-closing elements that have children* (`p/>b`, `br>span`: the
 subtree is part of the tree like any other; loose check).
+Two more: *deep trees* (a spine of up to 50 nested elements carrying a small subtree: "indentation equals its
+depth" at any depth, not only the 4-5 levels the skeletons reach) and *write histories* (check_history(): one
+parsed abbreviation handed to a sequence of writers; every write must give the lines of the statement).
 """
 import random
 import re
@@ -178,6 +181,43 @@ def text_line_problem(line, indent, depth, text, syntax, may_continue=False):
     return None
 
 
+def lines_problem(where, out, forest, syntax, indent, ref_tree, ref_text):
+    """None, or what is wrong with the text `out` as the haml / pug / slim output for the denoted `forest`:
+    line by line against expected_lines(), then the tree recovered from the indentation against `ref_tree`"""
+    lines = out.split('\n')
+    exp = expected_lines(forest, syntax)
+    for i in range(max(len(lines), len(exp))):
+        if i >= len(lines):
+            return '%s: line %d missing, expected %r (%s); output %r' % (where, i + 1, exp[i][2], exp[i][0], out)
+        if i >= len(exp):
+            return '%s: unexpected extra line %d %r; output %r' % (where, i + 1, lines[i], out)
+        kind, depth, text = exp[i]
+        if kind == 'element':
+            d, body = split_indent(lines[i], indent)
+            if d != depth:
+                return '%s: line %d %r is indented %d x indent, expected %d (depth of the element); output %r' % (
+                    where, i + 1, lines[i], d, depth, out)
+            if body.rstrip() != text.rstrip():
+                return '%s: line %d is %r, expected %r; output %r' % (where, i + 1, body, text, out)
+        else:
+            # statement: "one line per text line one level deeper"; the syntax's text markers
+            # (`| ` before, ` |` after with padding) and blanks at the ends of the line are not
+            # constrained.  The line must start with depth x indent and not with one indent more --
+            # the latter cannot be told (and is not checked) when the indent string is white space and
+            # the written line itself starts with white space (HAML writes the text first: empty /
+            # blank lines and lines starting with a blank or tab).
+            problem = text_line_problem(lines[i], indent, depth, text, syntax)
+            if problem:
+                return '%s: line %d %s; output %r' % (where, i + 1, problem, out)
+    tree, err = recover_tree(lines, syntax, indent)
+    if err:
+        return '%s: %s; output %r' % (where, err, out)
+    if tree != ref_tree:
+        return '%s: tree recovered from indentation differs from the tree of %s: %s; output %r' % (
+            where, ref_text, G.first_difference(ref_tree, tree) or 'ids differ', out)
+    return None
+
+
 def check_indent(ast, indent):
     from emmet import expand
     abbr = G.print_abbr(ast)
@@ -187,37 +227,47 @@ def check_indent(ast, indent):
     for syntax in SYNTAXES:
         out = expand(abbr, {'syntax': syntax, 'options': {'output.indent': indent}})
         where = 'expand(%r, syntax=%s, output.indent=%r)' % (abbr, syntax, indent)
-        lines = out.split('\n')
-        exp = expected_lines(forest, syntax)
-        for i in range(max(len(lines), len(exp))):
-            if i >= len(lines):
-                return '%s: line %d missing, expected %r (%s); output %r' % (where, i + 1, exp[i][2], exp[i][0], out)
-            if i >= len(exp):
-                return '%s: unexpected extra line %d %r; output %r' % (where, i + 1, lines[i], out)
-            kind, depth, text = exp[i]
-            if kind == 'element':
-                d, body = split_indent(lines[i], indent)
-                if d != depth:
-                    return '%s: line %d %r is indented %d x indent, expected %d (depth of the element); output %r' % (
-                        where, i + 1, lines[i], d, depth, out)
-                if body.rstrip() != text.rstrip():
-                    return '%s: line %d is %r, expected %r; output %r' % (where, i + 1, body, text, out)
-            else:
-                # statement: "one line per text line one level deeper"; the syntax's text markers
-                # (`| ` before, ` |` after with padding) and blanks at the ends of the line are not
-                # constrained.  The line must start with depth x indent and not with one indent more --
-                # the latter cannot be told (and is not checked) when the indent string is white space and
-                # the written line itself starts with white space (HAML writes the text first: empty /
-                # blank lines and lines starting with a blank or tab).
-                problem = text_line_problem(lines[i], indent, depth, text, syntax)
-                if problem:
-                    return '%s: line %d %s; output %r' % (where, i + 1, problem, out)
-        tree, err = recover_tree(lines, syntax, indent)
-        if err:
-            return '%s: %s; output %r' % (where, err, out)
-        if tree != html_tree:
-            return '%s: tree recovered from indentation differs from the tree of the HTML output %r: %s; output %r' % (
-                where, html, G.first_difference(html_tree, tree) or 'ids differ', out)
+        problem = lines_problem(where, out, forest, syntax, indent, html_tree, 'the HTML output %r' % html)
+        if problem:
+            return problem
+    return None
+
+
+def check_history(ast, indent, history):
+    """one parsed abbreviation written several times.  `history` is a list of writer names (haml, pug, slim,
+    html): the abbreviation is parsed ONCE (emmet.markup.parse with the configuration of the first writer) and
+    the resulting tree is handed to the writers in that order, each with the configuration of its own syntax.
+    The statement makes the output a function of abbreviation, syntax and indent string only, so EVERY write of
+    an indentation-based writer must give the lines expected_lines() writes down for the denoted tree --
+    whatever was written from the same parsed abbreviation before -- and the tree recovered from its
+    indentation, as well as the tree of every HTML write in the history, must be the tree the abbreviation
+    denotes (names, ids, classes, nesting)."""
+    from emmet.config import Config
+    from emmet import markup
+    abbr = G.print_abbr(ast)
+    forest = denote_full(ast)
+    ref_tree = element_shape(forest)
+    configs = {}
+    for s in history:
+        if s not in configs:
+            options = {'output.indent': indent}
+            if s == 'html':
+                options['output.format'] = False
+            configs[s] = Config({'syntax': s, 'options': options})
+    tree = markup.parse(abbr, configs[history[0]])
+    for n, s in enumerate(history):
+        out = markup.FORMATTERS[s](tree, configs[s])
+        where = 'write %d of %r (emmet.markup.%s(tree, config), output.indent=%r) on the one tree of emmet.markup.parse(%r)' % (
+            n + 1, history, s, indent, abbr)
+        if s == 'html':
+            got = G.shape(G.parse_markup(out, void_without_slash=True))
+            if got != ref_tree:
+                return '%s: the HTML output is not the tree the abbreviation denotes: %s; output %r' % (
+                    where, G.first_difference(ref_tree, got) or 'ids differ', out)
+        else:
+            problem = lines_problem(where, out, forest, s, indent, ref_tree, 'the abbreviation')
+            if problem:
+                return problem
     return None
 
 
@@ -843,6 +893,115 @@ def random_closing_implied_cases(seed, count):
         yield (ast, rng.choice(INDENTS + [' ', '\t\t', '   ']), True)
 
 
+# ----------------------------------------------------------------------------- deep trees
+# "indentation equals its depth in the tree": depth is unbounded in the grammar.  The skeleton generators stop
+# at 5 (6) elements, i.e. depth <= 4 (5); random ASTs practically never pass depth 7.  Here a *spine*
+# a>b>c>... of K elements carries a small payload at depth K, with siblings after a climb at some level.
+ALL_INDENTS = INDENTS + [' ', '\t\t', '   ']
+SPINE_LENGTHS = list(range(1, 17)) + [20, 24, 33, 50]
+SPINE_DECORATIONS = [0, 1, 2, 3, 4, 5, 6, 7, 14, 15, 16, 9, 8]      # 6, 9: one-line text; 7, 8: multi-line text
+
+
+def spine_head(d, variant, offset):
+    """head of the spine element at depth d: variant 0 a bare name, 1 name + rotating decoration (id, classes,
+    attributes, one-line or multi-line text of its own), 2 as 1 with the odd depths implicit"""
+    name = NAMES[(d + offset) % len(NAMES)]
+    if variant == 0:
+        return {'name': name}
+    head = dict(decoration(SPINE_DECORATIONS[(d + offset) % len(SPINE_DECORATIONS)], 100 + d))
+    if variant == 2 and d % 2 == 1:
+        if not G.has_attributes(head):
+            head['cls'] = ['c%d' % (100 + d)]
+    else:
+        head['name'] = name
+    return head
+
+
+def spine(K, variant, offset, payload, climb=None):
+    """AST of a chain of K elements (depths 0..K-1) whose innermost element has the children `payload`
+    (depth K); climb = d: an element `footer#fd` follows the spine element of depth d as its sibling"""
+    items = payload
+    for d in range(K - 1, -1, -1):
+        items = [['e', spine_head(d, variant, offset), None, items]]
+        if climb == d:
+            items.append(G.E('footer', id='f%d' % d))
+    return items
+
+
+def payload_family(fam, k):
+    """the subtree put at the end of the spine; x is an element with the k-th decoration"""
+    E = G.E
+    head = dict(decoration(k, 1), name=['p', 'div', 'span', 'section'][k % 4])
+    x = ['e', head, None, []]
+    if fam == 0:
+        return [x]
+    if fam == 1:
+        return [E('li'), x, E('i', cls=['y'])]
+    if fam == 2:
+        return [['e', dict(head), None, [E('b', text='B'), E('i', [E('u')])]], E('em')]
+    if fam == 3:
+        return [G.G([x, E('p')], 2)]
+    if fam == 4:
+        return [['e', dict(head), 2, [E('em')]], E(None, cls=['z'])]
+    return []                                   # the innermost spine element is the deepest one
+
+
+def deep_cases(plan):
+    """every spine length x 6 payload families x 3 spine variants x 4 climbs (none, to the top, to the middle,
+    to the innermost spine element); decoration of the payload and indent string (7 strings) rotating;
+    then every operator skeleton of `plan` placed below a spine of 5..12 elements"""
+    idx = 0
+    for K in SPINE_LENGTHS:
+        for fam in range(6):
+            for variant in range(3):
+                for climb in (None, 0, K // 2, K - 1):
+                    idx += 1
+                    yield (spine(K, variant, idx, payload_family(fam, idx), climb), ALL_INDENTS[idx % len(ALL_INDENTS)])
+    for (n, gmax, rmax), nvar in plan:
+        for g in range(0, gmax + 1):
+            for skel in G.skeletons(n, g):
+                m = G.count_nodes(skel)
+                for reps in G.rep_assignments(m, rmax, (2,)):
+                    for v in range(nvar):
+                        idx += 1
+                        K = 5 + idx % 8
+                        climb = (None, K - 1, K // 2)[idx % 3]
+                        yield (spine(K, idx % 3, idx, decorate(skel, reps, (idx + v) % 4, idx), climb),
+                               ALL_INDENTS[idx % len(ALL_INDENTS)])
+
+
+# ----------------------------------------------------------------------------- write histories
+# one parsed abbreviation, several writes: the same writer again, another indentation-based writer, the HTML
+# writer before / between / after them (the HTML write of the same tree is the reference of sentence 2)
+HISTORIES = [['haml', 'haml'], ['pug', 'pug'], ['slim', 'slim'], ['haml', 'haml', 'haml'],
+             ['haml', 'pug'], ['pug', 'slim'], ['slim', 'haml'], ['haml', 'pug', 'slim'], ['slim', 'pug', 'haml', 'pug'],
+             ['haml', 'html'], ['pug', 'html'], ['slim', 'html'], ['html', 'haml', 'html'], ['pug', 'html', 'pug'],
+             ['html', 'slim', 'slim', 'html']]
+
+
+def history_cases(plan):
+    """5 name kinds x 20 decorations x 3 positions x every history of HISTORIES (indent rotating), then the
+    operator skeletons of `plan` with rotating decorations, history and indent string"""
+    E = G.E
+    idx = 0
+    for name in ['div', 'p', 'ul', 'span', None]:
+        for k in range(N_DECORATIONS):
+            head = dict(decoration(k, 1))
+            if name is None and not G.has_attributes(head):
+                continue
+            if name:
+                head['name'] = name
+            x = ['e', head, None, []]
+            xt = ['e', dict(head), None, [E('b', text='B'), E('i', cls=['y'])]]
+            for ast in ([x], [E('ul', [E('li'), x, E('li', id='l')])], [E('div', [E('div', [xt], cls=['w']), E('p')]), x]):
+                for history in HISTORIES:
+                    idx += 1
+                    yield (ast, ALL_INDENTS[idx % len(ALL_INDENTS)], history)
+    for case in skeleton_cases(plan):
+        idx += 1
+        yield (case[0], ALL_INDENTS[idx % len(ALL_INDENTS)], HISTORIES[idx % len(HISTORIES)])
+
+
 def run_sorted(c, fname, cases, chunk):
     """run_parallel with a deterministic report: the pool delivers violations in arrival order and the
     default cap is 50, so collect all, sort by input (shortest first), report the first 50"""
@@ -862,6 +1021,8 @@ def run(tier, seed):
         nrand = 800
         nwide = 300
         nclosing = 300
+        deep = [((1, 1, 1), 1), ((2, 1, 1), 1), ((3, 1, 1), 1)]
+        hist = [((1, 2, 2), 2), ((2, 2, 2), 2), ((3, 1, 1), 1)]
     else:
         plan = [((1, 2, 2), 4), ((2, 2, 2), 4), ((3, 2, 2), 4), ((4, 2, 2), 2), ((5, 2, 2), 1), ((6, 1, 1), 1)]
         loose = [((1, 2, 2), 7), ((2, 2, 2), 7), ((3, 2, 2), 7), ((4, 2, 2), 7), ((5, 1, 1), 2), ((6, 0, 1), 1)]
@@ -869,6 +1030,8 @@ def run(tier, seed):
         nrand = 30000
         nwide = 10000
         nclosing = 10000
+        deep = [((1, 2, 2), 2), ((2, 2, 2), 2), ((3, 2, 2), 2), ((4, 1, 1), 1)]
+        hist = [((1, 2, 2), 4), ((2, 2, 2), 4), ((3, 2, 2), 2), ((4, 2, 1), 1)]
     out = []
     c = Clause('lines-skeleton-exhaustive', 'B',
                'every operator skeleton of the C01 generator (groups, ^ climbs, *2/*3), elements decorated with id / classes / '
@@ -972,6 +1135,32 @@ def run(tier, seed):
                '(name/ 25 %, br / hr 10 %) with or without children, text-only leaves (10 %); 7 indent strings',
                '%d cases, seed %d' % (nclosing, seed), 'a case is (AST, indent string, strict_heads=True)', exhaustive=False)
     run_sorted(c, 'check_indent_loose', random_closing_implied_cases(seed, nclosing), 25)
+    out.append(c.done())
+
+    c = Clause('deep-trees', 'B',
+               'a spine a>b>c>... of K elements, K in 1..16, 20, 24, 33, 50 (bare names / rotating decorations incl. one-line and '
+               'multi-line text / odd depths implicit) x 6 payloads at depth K (one decorated element; between siblings; with a '
+               'subtree; in a group *2; repeated *2 with a child + implicit sibling; none) x 4 climbs (none, a sibling after the '
+               'spine element at depth 0, K//2, K-1); then every operator skeleton below a spine of 5..12 elements; haml, pug, '
+               'slim; indent rotating over %r' % ALL_INDENTS,
+               '%d spine lengths x 6 x 3 x 4 | ' % len(SPINE_LENGTHS) + ' | '.join(
+                   '%d elements, <=%d groups, <=%d repeaters (*2): %d naming variant(s) below a spine' % (s + (v,)) for s, v in deep),
+               'a case is (AST, indent string); the indentation of every line equals the depth of its element at any depth',
+               exhaustive=True)
+    run_sorted(c, 'check_indent', deep_cases(deep), 60)
+    out.append(c.done())
+
+    c = Clause('write-histories', 'B',
+               'one abbreviation parsed once (emmet.markup.parse) and written by a sequence of writers: %d histories (the same '
+               'indentation-based writer 2-3 times, two / three / four different ones, the HTML writer after / between / around '
+               'them) x 5 name kinds x 20 decorations x 3 positions; then operator skeletons with rotating decorations and '
+               'history; indent rotating over %r' % (len(HISTORIES), ALL_INDENTS),
+               'complete product as stated | ' + ' | '.join(
+                   '%d elements, <=%d groups, <=%d repeaters: %d naming variant(s)' % (s + (v,)) for s, v in hist),
+               'a case is (AST, indent string, history); every write gives the lines the statement fixes for the abbreviation, '
+               'whatever was written from the same parsed abbreviation before; every HTML write has the denoted tree',
+               exhaustive=True)
+    run_sorted(c, 'check_history', history_cases(hist), 150)
     out.append(c.done())
 
     c = Clause('random-large', 'B', 'seeded random ASTs of 5..30 elements with random decorations and 7 indent strings',
